@@ -61,6 +61,134 @@ func Record(fn string, args ...any) {
 	}
 }
 
+// trackedMem: memory that exists before the call under replay (the backing arrays and cells the replay test built
+// from the solver model), with a snapshot taken when it was registered.
+type trackedMem struct {
+	cur, snap reflect.Value // slices over the full backing array, or pointers
+}
+
+var replayTracked []trackedMem
+
+// ReplayTrack registers the pre-existing memory of a replay test: backing arrays (as slices of full capacity) and
+// pointers to cells.  Unchanged() then compares them with their snapshots and Fresh(x) checks that x does not
+// overlap them.
+func ReplayTrack(xs ...any) {
+	for _, x := range xs {
+		v := reflect.ValueOf(x)
+		switch v.Kind() {
+		case reflect.Slice:
+			v = v.Slice3(0, v.Cap(), v.Cap())
+			snap := reflect.MakeSlice(v.Type(), v.Len(), v.Len())
+			reflect.Copy(snap, v)
+			replayTracked = append(replayTracked, trackedMem{v, snap})
+		case reflect.Pointer:
+			if v.IsNil() {
+				continue
+			}
+			snap := reflect.New(v.Type().Elem())
+			snap.Elem().Set(v.Elem())
+			replayTracked = append(replayTracked, trackedMem{v, snap})
+		}
+	}
+}
+
+// unchanged: no registered location holds a different value than when it was registered (a write of the same
+// value is invisible here; the verifier counts it as a write — the replay is then "not reproduced", never wrong).
+func (r *runtime) unchanged() bool {
+	for _, t := range replayTracked {
+		if t.cur.Kind() == reflect.Pointer {
+			if !deepEq(t.cur.Elem(), t.snap.Elem(), 0) {
+				return false
+			}
+			continue
+		}
+		if !deepEq(t.cur, t.snap, 0) {
+			return false
+		}
+	}
+	return true
+}
+
+func memRange(v reflect.Value) (lo, hi uintptr, ok bool) {
+	switch v.Kind() {
+	case reflect.Slice:
+		if v.Cap() == 0 {
+			return 0, 0, false
+		}
+		lo = v.Pointer()
+		return lo, lo + uintptr(v.Cap())*v.Type().Elem().Size(), true
+	case reflect.Pointer:
+		if v.IsNil() {
+			return 0, 0, false
+		}
+		lo = v.Pointer()
+		return lo, lo + v.Type().Elem().Size(), true
+	}
+	return 0, 0, false
+}
+
+// fresh: the slice / pointer does not overlap memory that existed before the call.
+func (r *runtime) fresh(a any) bool {
+	v := reflect.ValueOf(a)
+	if !v.IsValid() {
+		return true
+	}
+	if v.Kind() != reflect.Slice && v.Kind() != reflect.Pointer {
+		panic(Inconclusive{"Fresh of a " + v.Kind().String()})
+	}
+	lo, hi, ok := memRange(v)
+	if !ok {
+		return true
+	}
+	for _, t := range replayTracked {
+		tl, th, tok := memRange(t.cur)
+		if tok && lo < th && tl < hi {
+			return false
+		}
+	}
+	return true
+}
+
+// replaySource: an input iterator built by a replay test from the solver model's element sequence.
+type replaySource struct {
+	n, pos, probes int
+	at             func(i int) any
+}
+
+var replaySources = map[unsafe.Pointer]*replaySource{}
+
+// ReplaySource returns the hasNext/next pair of a protocol-abiding input iterator over elems
+// (hasNext has no effect, next on the exhausted source panics) and registers it so that
+// IterLen / IterPos / IterProbes / IterAt can be evaluated on the iterator built from the pair.
+func ReplaySource[T any](elems []T) (func() bool, func() T) {
+	s := &replaySource{n: len(elems), at: func(i int) any { return elems[i] }}
+	hn := func() bool { s.probes++; return s.pos < s.n }
+	nx := func() T {
+		if s.pos >= s.n {
+			panic("next on empty iterator (source)")
+		}
+		v := elems[s.pos]
+		s.pos++
+		return v
+	}
+	replaySources[*(*unsafe.Pointer)(unsafe.Pointer(&hn))] = s
+	return hn, nx
+}
+
+// source finds the registered source behind an fp.Iterator value (its first field is the hasNext closure).
+func (r *runtime) source(it any) *replaySource {
+	v := reflect.ValueOf(it)
+	if v.Kind() == reflect.Struct && v.NumField() >= 1 && v.Type().Field(0).Type.Kind() == reflect.Func {
+		pv := reflect.New(v.Type())
+		pv.Elem().Set(v)
+		key := *(*unsafe.Pointer)(unsafe.Pointer(pv.Pointer() + v.Type().Field(0).Offset))
+		if s, ok := replaySources[key]; ok {
+			return s
+		}
+	}
+	panic(Inconclusive{"iterator that is not a replayed input source"})
+}
+
 func (r *runtime) begin() { r.beginMark = len(r.trace); r.ended = false }
 func (r *runtime) end()   { r.endMark = len(r.trace); r.ended = true }
 func (r *runtime) calls() int {
